@@ -99,7 +99,7 @@ fn bb_strategy() -> impl Strategy<Value = BbCase> {
 		proptest::collection::vec(contact, 0..3),
 		proptest::collection::vec(1usize..=4, 1..=2),
 		any::<bool>(),
-		prop_oneof![3 => Just("none"), 1 => Just("garbage"), 1 => Just("empty"), 1 => Just("usable")],
+		prop_oneof![3 => Just("none"), 1 => Just("garbage"), 1 => Just("empty"), 1 => Just("usable"), 1 => Just("othertype")],
 		prop_oneof![3 => Just(0usize), 1 => 200usize..12000],
 	)
 		.prop_map(|(kt, chains, nif, c1, c2, chains2, kp_reuse, prekey, placeholder)| BbCase { key_type: kt.to_string(), chains, name_in_format: nif, contacts1: c1, contacts2: c2, chains2, kp_reuse, prekey: prekey.to_string(), placeholder })
@@ -216,6 +216,12 @@ fn exec_bb_in(case: &BbCase, acmed: &std::path::Path, dir: &std::path::Path) -> 
 		}
 		"usable" => {
 			if let Ok(k) = keys::gen(&case.key_type) {
+				let _ = std::fs::write(&key_path, keys::pkcs8_pem(&k));
+			}
+		}
+		// a well-formed key of another type (the key type was edited and the file name does not depend on it, or a key put there by hand)
+		"othertype" => {
+			if let Ok(k) = keys::gen(if case.key_type == "ecdsa-p384" { "rsa2048" } else { "ecdsa-p384" }) {
 				let _ = std::fs::write(&key_path, keys::pkcs8_pem(&k));
 			}
 		}
